@@ -6,6 +6,8 @@ stdin: JSON {"op": ..., ...}; stdout: JSON.
   eq       {"docs":[...],"pairs":[[i,j]..]}-> [1 True | 0 False | 2 raised | 3 a load failed | 9 non-bool], with {"exc":..} list beside
   jsv      {"docs":[...],"roots":[..]}     -> {"<root>":[bool,...]}    roots: "file" (the schema file as is), "MetaModel" ($ref root),
                                               "main" (the object main() hands to jsonschema.validate, captured)
+  purity   {"groups":[[d,...],...]}        -> per group, on ONE in-memory copy of the documents: create twice, re-read the first model,
+                                              load the first document alone, and report whether the input documents were modified
   capture  {"doc": d}                      -> what main() does, observed: schemas passed to jsonschema.validate, order of events
 """
 import copy
@@ -62,6 +64,41 @@ def guarded(f):
         return {"ok": True, "dump": dump(m), "readback": readback(m)}
     except Exception as e:      # noqa: BLE001 - every exception class is a "raise" of the loader
         return {"ok": False, "exc": type(e).__name__, "msg": str(e)[:300]}
+
+
+def jsonable(v):
+    """the input documents after loading: plain JSON, or a description of what is not JSON any more"""
+    if isinstance(v, dict):
+        return {k: jsonable(x) for k, x in v.items()}
+    if isinstance(v, list):
+        return [jsonable(x) for x in v]
+    if v is None or isinstance(v, (bool, int, float, str)):
+        return v
+    return {"$not-json": type(v).__name__}
+
+
+def purity(group):
+    g = copy.deepcopy(group)
+    r = {"ok": True}
+    try:
+        m1 = M.create_lsp_model(g)
+        r["first"] = readback(m1)
+        r["inputs_after_first"] = jsonable(g)
+        m2 = M.create_lsp_model(g)
+        r["second"] = readback(m2)
+        r["first_reread"] = readback(m1)
+        r["inputs_after_second"] = jsonable(g)
+        alone = M.create_lsp_model([g[0]])
+        r["first_document_alone"] = readback(alone)
+        r["single_load_keeps_input"] = True
+        for d in group:
+            d1 = copy.deepcopy(d)
+            M.LSPModel(**d1)
+            if jsonable(d1) != d:
+                r["single_load_keeps_input"] = False
+    except Exception as e:      # noqa: BLE001
+        r = {"ok": False, "exc": type(e).__name__, "msg": str(e)[:300]}
+    return r
 
 
 def captured_main(doc):
@@ -136,6 +173,8 @@ def main():
         for r, s in roots.items():
             v = jsonschema.validators.validator_for(s)(s)
             out[r] = [v.is_valid(d) for d in req["docs"]]
+    elif op == "purity":
+        out = [purity(g) for g in req["groups"]]
     elif op == "capture":
         out = captured_main(req["doc"])
     else:
